@@ -243,6 +243,30 @@ def oracle(ck, tier, deep):
                     break
         except Exception as e:
             ck.violation(dict(site="rbasex", clause="exception"), dict(Rmax=Rm, order=order, odd=odd), f"{type(e).__name__}: {e}")
+    # rbasex from disk: a later session (empty memory cache) is served from the file an earlier request left — larger radius,
+    # higher order, the other parity — and must get exactly the projected basis it asked for
+    for (first, then) in (((20, 4, False), (14, 2, True)), ((20, 3, True), (14, 2, False)), ((20, 3, True), (14, 3, True)),
+                          ((14, 2, False), (20, 2, False)), ((20, 2, False), (14, 2, False)), ((14, 2, True), (14, 4, False)),
+                          ((20, 4, False), (20, 1, True))):
+        d = tempfile.mkdtemp(prefix="c09_", dir=scratch)
+        rbasex.cache_cleanup()
+        ck.count(("S.cached", "rbasex-disk", first, then), suite="S.get_bs_cached")
+        try:
+            quiet(rbasex.get_bs_cached, first[0], first[1], first[2], "forward", basis_dir=d)
+            rbasex.cache_cleanup()
+            Af = [np.array(a) for a in quiet(rbasex.get_bs_cached, then[0], then[1], then[2], "forward", basis_dir=d)]
+            rbasex.cache_cleanup()
+            bs = [P.copy() for P in quiet(rbasex._bs_rbasex, *then)]
+            bad = len(Af) != len(bs) or any(a.shape != P.T.shape or np.abs(a - P.T).max() > 1e-12 * max(1.0, np.abs(P).max()) for a, P in zip(Af, bs))
+            if bad:
+                ck.violation(dict(site="rbasex", clause="get_bs_cached=generator"), dict(first=list(first), then=list(then), mode="disk"),
+                             f"rbasex.get_bs_cached{then} served from the basis file of an earlier {first} request is not the projected basis "
+                             f"(Rmax, order, odd) = {then}")
+        except Exception as e:
+            ck.violation(dict(site="rbasex", clause="exception"), dict(first=list(first), then=list(then), mode="disk"), f"{type(e).__name__}: {e}")
+        finally:
+            import shutil
+            shutil.rmtree(d, ignore_errors=True)
     rbasex.cache_cleanup()
     ck.sample(dict(suite="S", families=["daun0-3", "basex", "rbasex", "two_point", "three_point", "onion_peeling", "get_bs_cached histories"]))
 
